@@ -16,12 +16,21 @@ import (
 
 func init() {
 	Register(&Rule{ID: "STOREONCE", Props: []string{"C08", "C13", "C02"}, Min: 2,
-		Doc: "package mast has exactly one Persist.Store call site, inside the closure queued by the node store, and the node store is called only by itself and by flush: " +
-			"persisted nodes are written nowhere else, under no other naming scheme.",
+		Doc: "package mast has exactly one writer site — a place that brings a name and the bytes together and hands them to a store — inside the closure queued by the node store, " +
+			"and the node store is called only by itself and by flush: persisted nodes are written nowhere else, under no other naming scheme. " +
+			"Store sites are the interface calls of a Store method of Persist's signature and the static calls of pass-throughs. A pass-through (a decorator around a Persist) is a function " +
+			"every store site of which passes on two of the function's own parameters as name and bytes by SSA identity, which does nothing else with the bytes parameter than take its length, " +
+			"and whose value is never taken and which no other interface call can reach: it adds no (name, bytes) pair of its own, so the forwarding call inside it is not a writer site, " +
+			"while every one of its callers is a store site and is judged as such. Anything else — a renamed, re-encoded or edited pair, a constant name, a second pair, a go/defer, " +
+			"a method value of a store — is a writer site or a violation.",
 		Run: runSTOREONCE})
 	Register(&Rule{ID: "HASHNAME", Props: []string{"C08", "C03"}, Min: 4,
-		Doc: "at the Persist.Store site the name argument is base64.RawURLEncoding.EncodeToString(h[:]) with h = blake2b.Sum256(b), and the bytes argument is the same value b " +
-			"(the encoder's result); the node store's non-error results are that name or the node's recorded source name; nothing can overwrite the name variable.",
+		Doc: "at the writer site the name argument is base64.RawURLEncoding.EncodeToString(h[:]) with h = blake2b.Sum256(b), and the bytes argument is the same value b " +
+			"(the encoder's result); the node store's results with a possibly nil error are that name or the node's own recorded source name, the latter only for a node that is not dirty " +
+			"(the return is unreachable under the dirty valuation of the node); nothing can overwrite the name variable. " +
+			"Name and bytes may be results of one invocation of a same-package helper: they are then the operands of the helper's only nil-error return (all its other returns carry a " +
+			"certainly non-nil error, and the caller has found the error of that very call nil before the site), compared by SSA identity inside the helper; " +
+			"a (name, error) pair passed on from a helper that is handed the node is judged on the helper's returns that are consistent with what the caller tested.",
 		Run: runHASHNAME})
 	Register(&Rule{ID: "DET", Props: []string{"C08", "C04"}, Min: 3,
 		Doc: "the functions that produce a node's bytes (everything reachable from the marshal closure flush hands to the node store) contain no source of nondeterminism: " +
@@ -34,20 +43,63 @@ func init() {
 
 func runSTOREONCE(c *Ctx) {
 	P := c.P
-	sites := storeSites(c)
-	if len(sites) == 0 {
+	R := storeSiteFactsOf(c)
+	if len(R.sites) == 0 {
 		c.Violation(nil, "-", "no Persist.Store call", "package mast never calls Persist.Store: nothing is persisted")
+		return
+	}
+	// pass-throughs: they add no (name, bytes) pair of their own (see own_util.go)
+	for _, s := range R.sites {
+		f := s.Call.Parent()
+		if idx, ok := R.pass[f]; ok {
+			c.OK(P.InstrPos(s.Call), "store site in pass-through "+ir.FuncName(f),
+				fmt.Sprintf("forwards its own parameters %s and %s unchanged, never writes the bytes, and its value is never taken: its callers are the store sites",
+					f.Params[idx[0]].Name(), f.Params[idx[1]].Name()), false)
+		}
+	}
+	// a store method taken as a value could be called where the rule does not see a store site
+	for _, fn := range P.Funcs {
+		if fn.Pkg.Pkg.Path() != ir.MastPath {
+			continue
+		}
+		for _, b := range fn.Blocks {
+			for _, ins := range b.Instrs {
+				mc, ok := ins.(*ssa.MakeClosure)
+				if !ok {
+					continue
+				}
+				g, ok := mc.Fn.(*ssa.Function)
+				if !ok || g.Synthetic == "" {
+					continue
+				}
+				for _, gb := range g.Blocks {
+					for _, gi := range gb.Instrs {
+						ci, ok := gi.(ssa.CallInstruction)
+						if !ok || !ci.Common().IsInvoke() || ci.Common().Method.Name() != "Store" {
+							continue
+						}
+						if ms, ok := ci.Common().Method.Type().(*types.Signature); ok && sameParamsResults(ms, persistStoreSig(P)) {
+							c.Violation(fn, P.InstrPos(ins), "Persist.Store taken as a method value", "the store method of a Persist is bound to a function value: calls through it are store sites the rule cannot see")
+						}
+					}
+				}
+			}
+		}
+	}
+	sites := writerStoreSites(c)
+	if len(sites) == 0 {
+		c.Undecided(nil, "-", "no writer among the store sites", "every store site of package mast forwards the parameters of its function: no place brings a name and the bytes together")
 		return
 	}
 	for i, s := range sites {
 		if i == 0 {
-			c.OK(P.InstrPos(s), "Persist.Store call site in "+ir.FuncName(s.Parent()), "the single store site", false)
+			c.OK(P.InstrPos(s), "Persist.Store call site in "+ir.FuncName(s.Parent()), "the single writer site", false)
 		} else {
 			c.Violation(s.Parent(), P.InstrPos(s), "second Persist.Store call site", "a second place writes to the store; the name=hash(bytes) discipline is established only at the first")
 		}
 	}
 	outer := ir.Outermost(sites[0].Parent())
-	sh := findFlush(c)
+	flush := nodeStoreDriver(c)
 	// helpers of the node store: functions all of whose callers are the node store or its helpers
 	family := map[*ssa.Function]bool{outer: true}
 	for changed := true; changed; {
@@ -70,7 +122,7 @@ func runSTOREONCE(c *Ctx) {
 	}
 	for _, cs := range c.P.Callers[outer] {
 		caller := ir.Outermost(cs.Parent())
-		if family[caller] || (sh != nil && caller == sh.F) {
+		if family[caller] || (flush != nil && caller == flush) {
 			c.OK(P.InstrPos(cs), "caller of "+ir.FuncName(outer)+": "+ir.FuncName(caller), "recursion (possibly through a helper of the node store) or flush", false)
 		} else {
 			c.Violation(caller, P.InstrPos(cs), "node store called outside flush", ir.FuncName(caller)+" stores nodes without flush's completion barrier and error handling")
@@ -90,24 +142,128 @@ func staticCalleeName(v ssa.Value) (string, *ssa.Call) {
 	return sc.String(), call
 }
 
+// helperResolver follows values out of the same-package helpers that compute them. A value that is result #i of a
+// call of helper h is replaced by operand #i of h's *success return*: the only return of h whose error operand is the
+// nil constant (or h's only return, when h has no error result). That is what the value is wherever the caller has
+// established that the error result of that very call is nil — which is checked (nilCheckedAt) at the place the value is
+// used, unless every other return of h is unreachable anyway. Every helper is entered through one call instruction only
+// (calls): two values resolved into the same helper are then operands of the same invocation, so SSA identity inside the
+// helper means identity of the run-time values.
+type helperResolver struct {
+	outer *ssa.Function
+	calls map[*ssa.Function]*ssa.Call
+	succ  map[*ssa.Function]*ssa.Return
+	env   map[*ssa.Parameter]ssa.Value
+	why   string // why a resolution was refused (for the report)
+}
+
+func newHelperResolver(outer *ssa.Function) *helperResolver {
+	return &helperResolver{outer: outer, calls: map[*ssa.Function]*ssa.Call{}, succ: map[*ssa.Function]*ssa.Return{}, env: map[*ssa.Parameter]ssa.Value{}}
+}
+
+// successReturn: the single return of h with a nil-constant error; failing reports whether h has other returns, all of
+// which must carry an error that is certainly non-nil (so that "the error is nil" identifies the success return).
+func successReturn(h *ssa.Function) (succ *ssa.Return, failing bool, ok bool) {
+	ei := ir.ErrorResultIndex(h.Signature)
+	rets := ir.Returns(h)
+	if ei < 0 {
+		if len(rets) == 1 {
+			return rets[0], false, true
+		}
+		return nil, false, false
+	}
+	for _, r := range rets {
+		switch {
+		case ei < len(r.Results) && ir.IsNilConst(r.Results[ei]):
+			if succ != nil {
+				return nil, false, false
+			}
+			succ = r
+		case ei < len(r.Results) && knownNonNilError(r.Results[ei], r):
+			failing = true
+		default:
+			// a return whose error may or may not be nil: with a nil error the results could be its operands
+			return nil, false, false
+		}
+	}
+	return succ, failing, succ != nil
+}
+
+// resolve follows v (seen from instruction use, which sits in the function of the call or in a closure nested in it).
+func (H *helperResolver) resolve(v ssa.Value, use ssa.Instruction) ssa.Value {
+	for depth := 0; depth < 4; depth++ {
+		v = ir.Origin(v)
+		call, idx, ok := tupleResult(v)
+		if !ok {
+			return v
+		}
+		h := ownHelper(call)
+		if h == nil {
+			return v
+		}
+		if prev, seen := H.calls[h]; seen && prev != call {
+			H.why = "two different calls of " + ir.FuncName(h)
+			return v
+		}
+		succ, failing, ok := successReturn(h)
+		if !ok || idx >= len(succ.Results) {
+			// legacy shape: a helper with one return statement
+			if rets := ir.Returns(h); len(rets) == 1 && idx < len(rets[0].Results) {
+				succ, failing = rets[0], false
+			} else {
+				H.why = ir.FuncName(h) + " has no single success return"
+				return v
+			}
+		}
+		if failing {
+			ub := useBlockIn(call.Parent(), use)
+			if ub == nil || !nilCheckedAt(call, ir.ErrorResultIndex(h.Signature), ub) {
+				H.why = "the error of " + ir.FuncName(h) + " is not known to be nil where its result is used"
+				return v
+			}
+		}
+		H.calls[h], H.succ[h] = call, succ
+		for i, p := range h.Params {
+			if i < len(call.Call.Args) {
+				H.env[p] = call.Call.Args[i]
+			}
+		}
+		v, use = succ.Results[idx], succ
+	}
+	return v
+}
+
+// back maps a parameter of an entered helper to the argument it was called with.
+func (H *helperResolver) back(v ssa.Value) ssa.Value {
+	for i := 0; i < 4; i++ {
+		p, isP := ir.Strip(ir.ResolveCell(v)).(*ssa.Parameter)
+		if !isP || H.env[p] == nil {
+			return v
+		}
+		v = H.env[p]
+	}
+	return v
+}
+
 func runHASHNAME(c *Ctx) {
 	P := c.P
-	sites := storeSites(c)
+	sites := writerStoreSiteInfos(c)
 	if len(sites) == 0 {
 		c.AnchorMissing("Persist.Store call site")
 		return
 	}
 	site := sites[0]
-	fn := site.Parent()
+	fn := site.Call.Parent()
 	outer := ir.Outermost(fn)
-	args := site.Common().Args // ctx, name, bytes
-	if len(args) != 3 {
+	name, bytes := site.Name, site.Bytes
+	if name == nil || bytes == nil {
 		c.AnchorMissing("Persist.Store(ctx, name, bytes)")
 		return
 	}
-	pos := P.InstrPos(site)
+	pos := P.InstrPos(site.Call)
+	H := newHelperResolver(outer)
 	// --- name
-	nameCell := ir.CellOf(args[1])
+	nameCell := ir.CellOf(name)
 	var nameDef ssa.Value
 	if nameCell != nil {
 		sts, _ := ir.AllCellStores(nameCell)
@@ -121,24 +277,23 @@ func runHASHNAME(c *Ctx) {
 			c.Violation(w.Parent(), P.InstrPos(w), "store through node.source", "a name string reachable from node.source is overwritten in place; recorded names must be immutable")
 		}
 	} else {
-		nameDef = ir.Origin(args[1])
+		nameDef = ir.Origin(name)
 	}
-	// the name may be computed by a helper (hashOf(bytes)): look inside, mapping its parameters back
-	var henv map[*ssa.Parameter]ssa.Value
-	if inner, env, ok := helperResult(nameDef); ok {
+	nameDef0 := nameDef
+	// the name may be computed by a helper (hashOf(bytes), node.encode(…)): look inside, mapping its parameters back
+	if inner := H.resolve(nameDef, site.Call); inner != nameDef {
 		if _, isEnc := staticCalleeName(ir.Origin(inner)); isEnc != nil {
-			nameDef, henv = ir.Origin(inner), env
+			nameDef = ir.Origin(inner)
 		}
 	}
-	back := func(v ssa.Value) ssa.Value {
-		if p, isP := ir.Strip(ir.ResolveCell(v)).(*ssa.Parameter); isP && henv != nil && henv[p] != nil {
-			return henv[p]
-		}
-		return v
-	}
+	back := H.back
 	cn, call := staticCalleeName(nameDef)
 	if call == nil || cn != "(*encoding/base64.Encoding).EncodeToString" {
-		c.Violation(outer, pos, "name is not base64 EncodeToString(hash)", "the name given to Persist.Store is not produced by base64 EncodeToString ("+cn+")")
+		why := ""
+		if H.why != "" {
+			why = "; " + H.why
+		}
+		c.Violation(outer, pos, "name is not base64 EncodeToString(hash)", "the name given to Persist.Store is not produced by base64 EncodeToString ("+cn+")"+why)
 		return
 	}
 	enc := call.Call.Args[0]
@@ -173,35 +328,162 @@ func runHASHNAME(c *Ctx) {
 		return
 	}
 	c.OK(P.InstrPos(dcall), "digest", dn+"(bytes), whole 32-byte array", false)
-	// bytes identity
-	if ir.SameOrigin(back(dcall.Call.Args[0]), args[2]) {
-		c.OK(pos, "bytes hashed are the bytes stored", "same SSA value ("+ir.Sym(ir.Origin(args[2]))+")", false)
-	} else {
+	// bytes identity: by SSA value in the function that stores, or — when name and bytes are results of one invocation of
+	// a helper — by SSA value inside that helper
+	hashed := dcall.Call.Args[0]
+	bytesIn := H.resolve(bytes, site.Call)
+	switch {
+	case ir.SameOrigin(back(hashed), bytes):
+		c.OK(pos, "bytes hashed are the bytes stored", "same SSA value ("+ir.Sym(ir.Origin(bytes))+")", false)
+	case bytesIn != ir.Origin(bytes) && bytesIn.Parent() == hashed.Parent() && ir.SameOrigin(hashed, bytesIn):
+		c.OK(pos, "bytes hashed are the bytes stored", "same SSA value ("+ir.Sym(ir.Origin(bytesIn))+") in "+ir.FuncName(bytesIn.Parent())+", which returns the bytes and their name together", false)
+	default:
 		c.Violation(outer, pos, "bytes stored differ from bytes hashed", "Persist.Store is given a different byte slice than the one the name was computed from")
 	}
 	// the bytes are the first result of the marshal parameter call
-	bo := ir.Origin(args[2])
+	bo := ir.Origin(bytesIn)
 	if ex, ok := bo.(*ssa.Extract); ok {
 		if mc, ok := ex.Tuple.(*ssa.Call); ok && ex.Index == 0 {
 			c.OK(P.InstrPos(mc), "bytes origin", "result #0 of "+c.Facts.External(mc)+callNames(c, mc), false)
 		}
 	}
 	// non-error results of the node store
+	var recv *ssa.Parameter
+	if len(outer.Params) > 0 && isNodePtr(outer.Params[0].Type()) {
+		recv = outer.Params[0]
+	}
 	ei := ir.ErrorResultIndex(outer.Signature)
+	isName := func(v ssa.Value) bool {
+		return (nameCell != nil && ir.CellOf(v) == nameCell) || ir.Origin(v) == nameDef || ir.Origin(v) == nameDef0
+	}
 	for _, r := range ir.Returns(outer) {
-		if ei < 0 || !ir.IsNilConst(r.Results[ei]) {
+		if ei < 0 || len(r.Results) == 0 {
 			continue
 		}
-		v := r.Results[0]
-		switch {
-		case nameCell != nil && ir.CellOf(v) == nameCell, ir.Origin(v) == nameDef:
-			c.OK(P.InstrPos(r), "node store returns the computed name", "hash", false)
-		case isSourceDeref(v, outer):
-			c.OK(P.InstrPos(r), "node store returns the recorded source name", "*node.source of a clean node", false)
-		default:
-			c.Violation(outer, P.InstrPos(r), "node store returns a name that is neither the hash nor the recorded source", "the link stored in the parent would not be the content hash of the child")
+		checkStoreReturn(c, outer, r, 0, ei, recv, isName, false, nil, 0)
+	}
+}
+
+// retFilter restricts the returns of a helper to those consistent with what the caller knows about the results of the
+// call when it passes them on.
+type retFilter struct {
+	call  *ssa.Call
+	block *ssa.BasicBlock // where the caller returns the helper's results
+}
+
+// excludes: return r of the called helper cannot be the one taken, given the branch facts that hold at F.block about
+// the other results of the call (a boolean result tested, the error result compared with nil).
+func (F *retFilter) excludes(r *ssa.Return) bool {
+	for _, f := range ir.FactsAt(F.block) {
+		cond, truth := f.Cond, f.Truth
+		for {
+			u, ok := cond.(*ssa.UnOp)
+			if !ok || u.Op != token.NOT {
+				break
+			}
+			truth = !truth
+			cond = u.X
+		}
+		if cl, idx, ok := tupleResult(cond); ok && cl == F.call && idx < len(r.Results) {
+			if v, isC := ir.ConstBool(r.Results[idx]); isC && v != truth {
+				return true
+			}
+		}
+		if tv, tnn, isNil := ir.NilTest(f.Cond); isNil {
+			if cl, idx, ok := tupleResult(tv); ok && cl == F.call && idx < len(r.Results) {
+				nonNil := f.Truth == tnn
+				if ir.IsNilConst(r.Results[idx]) && nonNil {
+					return true
+				}
+				if knownNonNilError(r.Results[idx], r) && !nonNil {
+					return true
+				}
+			}
 		}
 	}
+	return false
+}
+
+// checkStoreReturn examines one return of the node store, or of a helper whose results the node store returns as they
+// are: when the error operand can be nil, the name operand (#vi) must be the computed hash name, or the recorded source
+// name *node.source of the very node being stored, returned only for a node that is not dirty (the return is unreachable
+// under the dirty valuation of the node), or the result of a same-package helper that is handed the node and whose
+// returns — those consistent with what the caller tested — satisfy the same. A return whose error is certainly non-nil,
+// or whose name is the empty constant, names nothing.
+func checkStoreReturn(c *Ctx, fn *ssa.Function, r *ssa.Return, vi, ei int, node *ssa.Parameter, isName func(ssa.Value) bool, cleanOnly bool, via []string, depth int) {
+	P := c.P
+	if vi >= len(r.Results) || ei >= len(r.Results) {
+		return
+	}
+	v, e := r.Results[vi], r.Results[ei]
+	where := ir.FuncName(fn)
+	if len(via) > 0 {
+		where += " (results returned by " + strings.Join(via, " ← ") + ")"
+	}
+	if k, isC := ir.Strip(v).(*ssa.Const); isC && k.Value != nil && k.Value.ExactString() == `""` && !ir.IsNilConst(e) {
+		return // ("", err): no name
+	}
+	if !ir.IsNilConst(e) && knownNonNilError(e, r) {
+		return // an error return: the name is not used
+	}
+	if isName != nil && isName(v) {
+		c.OK(P.InstrPos(r), "node store returns the computed name", "hash", false)
+		return
+	}
+	if p := sourceDerefOf(v); p != nil {
+		switch {
+		case node == nil || p != node:
+			c.Violation(fn, P.InstrPos(r), "node store returns the recorded source of another node", "the name returned for a node is the recorded name of a different node")
+		case !cleanOnly && reachUnderVal(fn, node, valDirty, 0)[r.Block()]:
+			c.Violation(fn, P.InstrPos(r), "recorded source name returned for a dirty node",
+				"the recorded name of a node is returned although the node may be dirty: the link stored in the parent would name the old contents, and the modification is never written")
+		default:
+			c.OK(P.InstrPos(r), "node store returns the recorded source name", "*node.source of a clean node (unreachable when the node is dirty) in "+where, false)
+		}
+		return
+	}
+	// (name, err) both results of one call of a helper that is handed the node
+	if cl, idx, ok := tupleResult(v); ok && depth < 3 && node != nil {
+		if ecl, eidx, ok2 := tupleResult(e); ir.IsNilConst(e) || (ok2 && ecl == cl) {
+			if h, q := helperParamFor(cl, node); h != nil && cl.Parent() == fn {
+				if ir.IsNilConst(e) {
+					eidx = -1
+				}
+				F := &retFilter{call: cl, block: r.Block()}
+				// the helper is entered for a clean node only when the call is unreachable under the dirty valuation
+				hClean := cleanOnly || !reachUnderVal(fn, node, valDirty, 0)[cl.Block()]
+				n := 0
+				for _, hr := range ir.Returns(h) {
+					if F.excludes(hr) {
+						continue
+					}
+					n++
+					if eidx < 0 {
+						// the caller substitutes a nil error: every remaining return of the helper must name the node
+						checkHelperReturnNilErr(c, h, hr, idx, q, hClean, append([]string{ir.FuncName(fn)}, via...), depth+1)
+						continue
+					}
+					checkStoreReturn(c, h, hr, idx, eidx, q, nil, hClean, append([]string{ir.FuncName(fn)}, via...), depth+1)
+				}
+				if n > 0 {
+					return
+				}
+			}
+		}
+	}
+	c.Violation(fn, P.InstrPos(r), "node store returns a name that is neither the hash nor the recorded source", "the link stored in the parent would not be the content hash of the child")
+}
+
+// checkHelperReturnNilErr: the caller returns result #vi of helper h with a nil error.
+func checkHelperReturnNilErr(c *Ctx, h *ssa.Function, r *ssa.Return, vi int, node *ssa.Parameter, cleanOnly bool, via []string, depth int) {
+	if vi >= len(r.Results) {
+		return
+	}
+	if p := sourceDerefOf(r.Results[vi]); p != nil && p == node && (cleanOnly || !reachUnderVal(h, node, valDirty, 0)[r.Block()]) {
+		c.OK(c.P.InstrPos(r), "node store returns the recorded source name", "*node.source of a clean node in "+ir.FuncName(h), false)
+		return
+	}
+	c.Violation(h, c.P.InstrPos(r), "node store returns a name that is neither the hash nor the recorded source", "the link stored in the parent would not be the content hash of the child")
 }
 
 func callNames(c *Ctx, ci ssa.CallInstruction) string {
@@ -215,22 +497,22 @@ func callNames(c *Ctx, ci ssa.CallInstruction) string {
 	return " → " + strings.Join(ns, "/")
 }
 
-// isSourceDeref: v is **(&recv.source).
-func isSourceDeref(v ssa.Value, fn *ssa.Function) bool {
+// sourceDerefOf: v is **(&p.source) for a node parameter p (seen through the cell of a captured parameter): p.
+func sourceDerefOf(v ssa.Value) *ssa.Parameter {
 	u, ok := v.(*ssa.UnOp)
 	if !ok || u.Op != token.MUL {
-		return false
+		return nil
 	}
 	u2, ok := u.X.(*ssa.UnOp)
 	if !ok || u2.Op != token.MUL {
-		return false
+		return nil
 	}
 	fa, ok := u2.X.(*ssa.FieldAddr)
 	if !ok || !isNodePtr(fa.X.Type()) || ir.FieldName(fa.X.Type(), fa.Field) != "source" {
-		return false
+		return nil
 	}
-	_, isParam := ir.ResolveCell(fa.X).(*ssa.Parameter)
-	return isParam
+	p, _ := ir.ResolveCell(fa.X).(*ssa.Parameter)
+	return p
 }
 
 // storesThroughSource finds `*node.source = …`.
@@ -255,19 +537,19 @@ func storesThroughSource(c *Ctx) *ssa.Store {
 
 // encodeSet: functions that produce node bytes.
 func encodeSet(c *Ctx) map[*ssa.Function]bool {
-	sites := storeSites(c)
+	sites := writerStoreSites(c)
 	if len(sites) == 0 {
 		return nil
 	}
 	outer := ir.Outermost(sites[0].Parent())
-	sh := findFlush(c)
-	if sh == nil {
+	flush := nodeStoreDriver(c)
+	if flush == nil {
 		return nil
 	}
 	// the marshal argument: a func(interface{}) ([]byte, error) closure passed by flush to the node store
 	var roots []*ssa.Function
 	for _, cs := range c.P.Callers[outer] {
-		if cs.Parent() != sh.F {
+		if cs.Parent() != flush {
 			continue
 		}
 		for _, a := range cs.Common().Args {
